@@ -29,6 +29,12 @@ pub fn run_prop(prop: &'static str, sem: hist::Sem, seed: u64, run: u64) -> Repo
     for t in plan.targets.iter() {
         probes.push(format!("target_{}", t.kind));
     }
+    if scn.folder_b {
+        probes.push("second_folder".into());
+        if scn.events.iter().any(|e| matches!(e, Ev::Change { path, .. } if path.starts_with("fb/"))) {
+            probes.push("second_folder_edited".into());
+        }
+    }
     if scn.events.iter().any(|e| matches!(e, Ev::RenameLoop { .. })) {
         probes.push("rename_loop".into());
     }
@@ -59,7 +65,9 @@ pub fn run_prop(prop: &'static str, sem: hist::Sem, seed: u64, run: u64) -> Repo
             Ev::Idle => json!("idle-timer-fires"),
             Ev::Request { kind, path, pos, .. } => json!({"request": format!("{kind:?}"), "path": path, "pos": pos}),
             Ev::RenameLoop { path, pos, new_name } => json!({"rename_loop": path, "pos": pos, "new_name": new_name}),
-            Ev::Folder { add } => json!({"folder_added": add}),
+            Ev::Folder { add, b } => json!({"folder_added": add, "second_folder": b}),
+            Ev::DiskDelete { path } => json!({"deleted_on_disk": path}),
+            Ev::DiskRestore { path } => json!({"restored_on_disk": path}),
             Ev::Checkpoint => json!("checkpoint: quiesce, compare with a fresh server"),
             Ev::Sem { target, mode } => json!({"semantic_checkpoint": mode, "target": target, "identifier_occurrences": scn.sem.get(*target).map(|t| t.occs.values().map(|v| v.len()).sum::<usize>())}),
         }).collect::<Vec<_>>(),
